@@ -259,9 +259,30 @@ bool ComponentEntity::replaceComponent(size_t index, const ComponentPtr &newComp
 {
     bool status = false;
     auto oldComponent = component(index);
-    ParentedEntityPtr parent = nullptr;
-    if (oldComponent != nullptr) {
-        parent = oldComponent->parent();
+    if ((newComponent == nullptr) || (oldComponent == nullptr)) {
+        return false;
+    }
+    if (oldComponent == newComponent) {
+        return true;
+    }
+
+    ParentedEntityPtr parent = oldComponent->parent();
+
+    // Refuse a replacement that would make a component its own ancestor.
+    if ((parent != nullptr) && ((parent == newComponent) || parent->hasAncestor(newComponent))) {
+        return false;
+    }
+
+    // Detach the replacement from the entity that currently holds it.
+    auto previousParent = std::dynamic_pointer_cast<ComponentEntity>(newComponent->parent());
+    if (previousParent != nullptr) {
+        auto &siblings = previousParent->pFunc()->mComponents;
+        auto it = std::find(siblings.begin(), siblings.end(), newComponent);
+        if (it != siblings.end()) {
+            siblings.erase(it);
+        }
+        newComponent->pFunc()->removeParent();
+        index = size_t(std::find(pFunc()->mComponents.begin(), pFunc()->mComponents.end(), oldComponent) - pFunc()->mComponents.begin());
     }
 
     if (removeComponent(index)) {
